@@ -1,6 +1,7 @@
 (* Cases for the codec payloaders and depacketizers (C08-C15). *)
 From Coq Require Import ZArith List Bool.
 From RTP Require Import Base.Res Base.ListX Base.Own Extract.Value Model.Vp8 Model.H264 Model.H265 Model.Vp9Header Model.Vp9 Model.Av1Pay Model.Av1Depack Model.Av1Legacy Model.Leb128 Model.Obu.
+From RTP Require Spec.Rfc6184.
 Import ListNotations.
 Open Scope Z_scope.
 
@@ -75,6 +76,15 @@ Fixpoint h264_unmarshal_seq (st : h264pkt) (ps : list tok) : list value :=
       end
     | None => [VBad]
     end
+  end.
+
+(* an RFC 6184 plan: [0 xnal] single, [1 nri [xunit...]] STAP-A, [2 h [xchunk...]] FU-A *)
+Definition t_item (t : tok) : option Rfc6184.item :=
+  match t with
+  | TList [TInt 0; TBytes n] => Some (Rfc6184.ISingle n)
+  | TList [TInt 1; TInt nri; TList us] => option_map (Rfc6184.IStapA nri) (opt_map t_bytes us)
+  | TList [TInt 2; TInt h; TList cs] => option_map (Rfc6184.IFua h) (opt_map t_bytes cs)
+  | _ => None
   end.
 
 Fixpoint h265_history (st : h265pay) (calls : list tok) : list value :=
@@ -259,6 +269,14 @@ Definition dispatch_codecs (op : Z) (args : list tok) : value :=
     match t_bool avc with
     | Some a => VList (h264_unmarshal_seq (mkH264Pkt a []) ps)
     | None => VBad
+    end
+  | 1004, [avc; TList plan] =>
+    (* the Spec/Rfc6184.v encoder run on the plan, then the receiver model on its packets *)
+    match t_bool avc, opt_map t_item plan with
+    | Some a, Some items =>
+      let ps := Rfc6184.rfc_stream items in
+      VList [VList (map VBytes ps); VList (h264_unmarshal_seq (mkH264Pkt a []) (map TBytes ps))]
+    | _, _ => VBad
     end
   | _, _ => VBad
   end.
